@@ -575,14 +575,16 @@ func TestC14(t *testing.T) {
 	}
 	r := lib.Start("C14", "fault_enumeration")
 	t0 := time.Now()
-	n := r.N(40, 600)
+	n := r.N(30, 400)
 	tornPerScript := 260
 	if !r.Quick() {
 		tornPerScript = 1500
 	}
 	r.Cases(n, 0, func(idx int) {
 		sc := genCase(lib.Rng("C14/script", uint64(idx)), idx)
+		ts := time.Now()
 		runScript(r, idx, sc, tornPerScript)
+		fmt.Printf("script %d %s ops=%d took %.1fs (information only)\n", idx, sc.Profile, len(sc.Ops), time.Since(ts).Seconds())
 	})
 	t1 := time.Now()
 	straceLayer(r, t)
